@@ -16,7 +16,7 @@ from lib import vf
 INVARIANTS = ("ForwardOnlyRouted AnsweredLocally EveryAnswerHasAKind PathStaysAbsolute EscapesSurvive "
               "OnlyStripAndPrepend QueryMergedInFront HostOnlyOnRequest PeerIsTold TLSHeaderTruthful "
               "RequestedHostIsTold RequestedPortIsTold STSOnlyOnTLS RedirectStatusIs3xx NeverRedirectsToItself "
-              "RedirectCarriesQuery FaultNotHidden")
+              "RedirectCarriesQuery FaultNotHidden HistoryIndependent")
 
 CFG = """SPECIFICATION Spec
 CONSTANTS
